@@ -16,7 +16,7 @@ from vf.tape import Recorder, Tape
 ID = "C14"
 LEVEL = "exploration"
 RULE = ("part 'validate': generated types (fields by for_types / for_value / serializer / serializer raising ValidationError / "
-        "extra validator) are used through a MemoryLogger for stand-alone messages, action start, success end, failed end (with extractor "
+        "extra validator / a Field subclass overriding validate()) are used through a MemoryLogger for stand-alone messages, action start, success end, failed end (with extractor "
         "fields) and tracebacks; each log holds conforming messages plus at most one single-point deviation (declared field dropped, "
         "extra key incl. framework-looking names, wrong type, validator-rejected value, non-JSON-encodable value). An independent "
         "acceptance predicate written from the documentation decides accept/reject; MemoryLogger.validate() must raise iff the "
